@@ -75,7 +75,8 @@ class _PredictorCorrectorContinuationBackend(_ContinuationBackend):
 
         converged = False
         failed_to_continue = False
-        while accepted_count < int(request.max_members) and not failed_to_continue:
+        left_target = False
+        while accepted_count < int(request.max_members) and not failed_to_continue and not left_target:
             last = family[-1]
 
             attempt = 0
@@ -125,7 +126,9 @@ class _PredictorCorrectorContinuationBackend(_ContinuationBackend):
 
                     current_params = params_history[-1]
                     if np.any(current_params < target_min) or np.any(current_params > target_max):
-                        break
+                        # The member just accepted left the target interval: it is
+                        # kept as the last member and the continuation stops here.
+                        left_target = True
                     break
 
                 rejected_count += 1
